@@ -45,6 +45,7 @@ R6 = ['-Ia', '-Ib', '-DX', '-lfoo', '-O2', '-I']
 R3 = ['-Ia', '-Ib', '-DX']
 
 READ_OPS = [['iter'], ['len'], ['getitem', 0], ['getitem', -1], ['to_native', True], ['to_native', False],
+            ['to_native_use', False], ['to_native_use', True], ['to_native_keep', False],
             ['eq_list'], ['eq_other_pending'], ['eq_other_clean'], ['repr']]
 
 
@@ -69,7 +70,7 @@ def small_ops() -> T.List[list]:
     ops += [['iadd', ['-Ia', '-Ib']], ['iadd', ['-DX', '-Ia']], ['iadd', ['-lfoo', '-DX']]]
     ops += [['insert', 0, '-Ia'], ['insert', 1, '-DX'], ['append_direct', '-Ia'], ['copy']]
     ops += [['iter'], ['getitem', 0], ['len'], ['to_native', True]]
-    ops += [['iadd', ['-D', 'FOO=1', '-D', 'BAR=2']], ['factory_copy']]
+    ops += [['iadd', ['-D', 'FOO=1', '-D', 'BAR=2']], ['factory_copy'], ['to_native_use', False]]
     return ops
 
 
@@ -104,8 +105,8 @@ def fakes() -> T.Dict[str, T.Any]:
         def get_default_include_dirs(self) -> T.List[str]:
             return list(self._dirs)
 
-        def unix_args_to_native(self, args: T.List[str]) -> T.List[str]:
-            return list(args)
+        # unix_args_to_native() is the REAL one of Compiler (GCC syntax is native)
+        info = None
 
         def __repr__(self) -> str:
             return f'<{self._name}>'
@@ -117,8 +118,7 @@ def fakes() -> T.Dict[str, T.Any]:
         def __init__(self) -> None:
             pass
 
-        def unix_args_to_native(self, args: T.List[str]) -> T.List[str]:
-            return list(args)
+        # unix_args_to_native() is the REAL one of StaticLinker
 
         def __repr__(self) -> str:
             return '<ar>'
@@ -195,6 +195,24 @@ def apply_op(obj: T.Any, op: list, kind: str) -> T.Any:
             obj[op[1]:op[2]]
         elif name == 'to_native':
             obj.to_native(copy=bool(op[1]))
+        elif name == 'to_native_use':
+            # the consumer completes ITS command line; the argument list must not change (checked by later reads)
+            cmd = obj.to_native(copy=bool(op[1]))
+            cmd.insert(0, 'cc')
+            cmd += ['-o', 'x.o', '-c', 'x.c']
+        elif name == 'to_native_keep':
+            # a command line handed out earlier must not change when the list grows afterwards
+            cmd = obj.to_native(copy=bool(op[1]))
+            snap = list(cmd)
+            obj += ['-pthread', '-Wkeep']
+            obj.insert(0, '-Wkeep2')
+            obj.extend_direct(['-Wkeep3'])
+            for _ in obj:
+                pass
+            S.STATE.count('read:to_native-kept-result')
+            if cmd != snap:
+                S._violate('to_native-result-changes-with-later-writes', S.shadow_of(obj, adopt=False),
+                           'to_native() result kept while the list grows', list(cmd), snap)
         elif name == 'eq_list':
             sh = S.shadow_of(obj, adopt=False)
             obj == (list(sh.ref.items) if sh else [])      # noqa: B015
@@ -391,6 +409,8 @@ def random_op(rng: random.Random, alphabet: T.List[str]) -> list:
         return ['getitem', rng.randint(-4, 6)]
     if r < 0.86:
         return ['getslice', rng.randint(0, 3), rng.randint(0, 7)]
+    if r < 0.875:
+        return [rng.choice(['to_native_use', 'to_native_keep']), rng.random() < 0.3]
     if r < 0.89:
         return ['to_native', rng.random() < 0.7]
     if r < 0.92:
@@ -686,6 +706,32 @@ def gen_project(rng: random.Random, idx: int) -> dict:
     else:
         nseq = [list(rng.choice(pool)) for _ in range(rng.randint(2, 5))]
     mb.append("zq_src = meson.current_source_dir()")
+    # compiler checks: the assembled arguments of a check are one increment - several directories providing the same
+    # header / library, given through args:, include_directories: and dependencies:
+    mb.append("zq_cc = meson.get_compiler('c')")
+    mb.append("zq_pre = '#include <which.h>'")
+    cchecks: T.List[dict] = []
+    for ci, ckind in enumerate(['args', 'incs', 'dep', 'depinc', 'lib'] + [rng.choice(['args', 'incs', 'dep'])]):
+        cdirs = rng.sample(ndirs, rng.randint(2, 3))
+        iargs = ', '.join(f"'-I' + zq_src / '{d}'" for d in cdirs)
+        key = f'{ckind}{ci}'
+        if ckind == 'args':
+            extra_ = rng.choice(['', ", '-DZQX=1'", ", '-O1'"])
+            call = f"zq_cc.get_define('WHICH', prefix: zq_pre, args: [{iargs}{extra_}])"
+        elif ckind == 'incs':
+            call = f"zq_cc.get_define('WHICH', prefix: zq_pre, include_directories: include_directories({q(cdirs)}))"
+        elif ckind == 'dep':
+            call = f"zq_cc.get_define('WHICH', prefix: zq_pre, dependencies: declare_dependency(compile_args: [{iargs}]))"
+        elif ckind == 'depinc':
+            call = (f"zq_cc.get_define('WHICH', prefix: zq_pre, "
+                    f"dependencies: declare_dependency(include_directories: include_directories({q(cdirs)})))")
+        else:
+            cdirs = rng.sample(['zqla', 'zqlb'], 2)
+            largs_ = ', '.join(f"'-L' + zq_src / '{d}'" for d in cdirs)
+            call = ("zq_cc.run('extern int zqw; int main(void) { return zqw; }', "
+                    f"args: [{largs_}, '-lzqw']).returncode().to_string()")
+        mb.append(f"message('ZQCHK {key}=' + {call})")
+        cchecks.append({'key': key, 'kind': ckind, 'dirs': cdirs})
     for i, c in enumerate(nseq):
         toks = ', '.join(("'-I' + zq_src / '" + t[len('-I@SRC@/'):] + "'") if t.startswith('-I@SRC@/') else "'" + t + "'" for t in c)
         mb.append(f"nd{i} = declare_dependency(compile_args: [{toks}])")
@@ -760,7 +806,7 @@ def gen_project(rng: random.Random, idx: int) -> dict:
         argv.append('-Db_pie=true')
     if rng.random() < 0.3:
         argv.append('-Dc_std=' + rng.choice(['c99', 'gnu11']))
-    return {'idx': idx, 'files': files, 'argv': argv, 'macros': per_level_macro, 'nseq': nseq, 'iseq': iseq, 'lseq': lseq, 'multi': multi, 'tdirs': tdirs, 'ddirs': ddirs,
+    return {'idx': idx, 'files': files, 'argv': argv, 'macros': per_level_macro, 'nseq': nseq, 'iseq': iseq, 'lseq': lseq, 'cchecks': cchecks, 'multi': multi, 'tdirs': tdirs, 'ddirs': ddirs,
             'sdirs': sdirs, 'dup_dir': dup_dir, 'use_sub': use_sub, 'global_args': level_args['G'],
             'project_args': level_args['P'], 'features': sorted(
                 [f'lib:{libkind}'] + (['c+cpp'] if multi else []) + (['subproject'] if use_sub else []) + (['two-deps'] if two_deps else []) +
@@ -1047,6 +1093,40 @@ def check_language_args(proj: dict, lang: str, tokens: T.List[str], link_tokens:
     return cnt, bad
 
 
+def build_probe_libs(src: str) -> None:
+    """zqla/libzqw.a (zqw = 1) and zqlb/libzqw.a (zqw = 2): the same library name in two directories."""
+    for d, v in (('zqla', 1), ('zqlb', 2)):
+        dd = os.path.join(src, d)
+        os.makedirs(dd, exist_ok=True)
+        obj = os.path.join(dd, 'zqw.o')
+        subprocess.run(['gcc', '-c', '-x', 'c', '-', '-o', obj], input=f'int zqw = {v};\n'.encode(), check=True,
+                       stdout=subprocess.DEVNULL, stderr=subprocess.DEVNULL, timeout=60)
+        subprocess.run(['ar', 'rcs', os.path.join(dd, 'libzqw.a'), obj], check=True, stdout=subprocess.DEVNULL,
+                       stderr=subprocess.DEVNULL, timeout=60)
+
+
+_WHICH_LIB = {'zqla': '1', 'zqlb': '2'}
+
+
+def check_compiler_checks(proj: dict, out: str) -> T.Tuple[T.Dict[str, int], T.List[T.Tuple[str, dict]]]:
+    """Result of the compiler checks of the project: the directory listed first in the one increment that carries
+    them must be the one searched first (include_directories.yaml: "the first directory listed has the highest
+    priority"; a batch of -I/-L keeps its own order)."""
+    cnt: T.Dict[str, int] = {}
+    bad: T.List[T.Tuple[str, dict]] = []
+    got = dict(re.findall(r'ZQCHK (\w+)=(\S*)', out))
+    for chk_ in proj.get('cchecks', []):
+        want = (_WHICH_LIB if chk_['kind'] == 'lib' else _WHICH)[chk_['dirs'][0]]
+        if chk_['key'] not in got:
+            cnt['e2e:compiler-check-result-missing'] = cnt.get('e2e:compiler-check-result-missing', 0) + 1
+            continue
+        cnt['e2e:compiler-check:' + chk_['kind']] = cnt.get('e2e:compiler-check:' + chk_['kind'], 0) + 1
+        if got[chk_['key']] != want:
+            bad.append((f"e2e-compiler-check-searches-later-listed-directory-first:{chk_['kind']}",
+                        {'check': chk_, 'result': got[chk_['key']], 'expected': want}))
+    return cnt, bad
+
+
 def run_project(proj: dict, root: T.Optional[str] = None) -> dict:
     """One real `meson setup` with the shadow installed + the end-to-end checks. Plain data out."""
     own = root is None
@@ -1055,6 +1135,7 @@ def run_project(proj: dict, root: T.Optional[str] = None) -> dict:
     res: dict = {'idx': proj['idx'], 'counters': {}, 'viol': [], 'status': 'ok', 'features': proj['features']}
     try:
         runner.write_tree(src, proj['files'])
+        build_probe_libs(src)
         r = runner.meson(proj['argv'], cwd=src, env={'MESON_FORCE_BACKTRACE': ''}, monitors=[S.install_shadow], timeout=180)
         if r.timed_out:
             res['status'] = 'timeout'
@@ -1079,6 +1160,11 @@ def run_project(proj: dict, root: T.Optional[str] = None) -> dict:
             res['status'] = 'no-counters'
         with open(os.path.join(src, 'build', 'build.ninja'), encoding='utf-8') as f:
             ninja_text = f.read()
+        cnt0, bad0 = check_compiler_checks(proj, r.out)
+        for k, v in cnt0.items():
+            res['counters'][k] = res['counters'].get(k, 0) + v
+        for mech, w in bad0:
+            res['viol'].append((mech, dict(w)))
         stmts = parse_compile_statements(ninja_text)
         extra: T.List[T.Tuple[T.Dict[str, int], T.List[T.Tuple[str, dict]], str]] = []
         for out, rule, var in parse_statements(ninja_text):
@@ -1245,7 +1331,7 @@ def main() -> int:
 
     # ---- 1: exhaustive ----------------------------------------------------------------------------
     states: T.Set[int] = set()
-    budget = 40.0 if quick else 540.0
+    budget = 32.0 if quick else 480.0
     t_end = time.time() + budget
     # (opset, class, initial list, max length, sampled only, share of the time budget); cheapest first so that a
     # loaded machine still completes the small bounds
@@ -1294,7 +1380,7 @@ def main() -> int:
 
     # ---- 2: random --------------------------------------------------------------------------------
     nrand = 24000 if quick else 1500000
-    rdeadline = time.time() + (20.0 if quick else 240.0)
+    rdeadline = time.time() + (16.0 if quick else 200.0)
     per = max(200, nrand // (chk.jobs * 6))
     ritems = [{'seed': f'C13:rand:{chk.seed}:{i}', 'n': per, 'maxlen': 60, 'deadline': rdeadline}
               for i in range((nrand + per - 1) // per)]
@@ -1326,7 +1412,10 @@ def main() -> int:
               'e2e:define-order-pairs', 'e2e:effective-macro', 'e2e:override-dedup', 'e2e:include-order-pairs',
               'e2e:isystem-order-pairs', 'e2e:include-private-dir-first', 'e2e:dependency-increments',
               'e2e:dependency-include-dirs', 'e2e:dependency-effective', 'e2e:dependency-link-args',
-              'e2e:per-language-compile-args', 'e2e:per-language-link-args'):
+              'e2e:per-language-compile-args', 'e2e:per-language-link-args', 'e2e:compiler-check:args',
+              'e2e:compiler-check:incs', 'e2e:compiler-check:dep', 'e2e:compiler-check:lib',
+              'meson:contract:compile-check-increment:several-dirs', 'meson:contract:to_native-result-independent',
+              'contract:to_native-result-independent', 'read:to_native-kept-result'):
         chk.require(m, 1)
     if chk.counters.get('shadow:adopted', 0):
         chk.notes['adopted_in_process'] = chk.counters['shadow:adopted']
